@@ -209,9 +209,29 @@ def castOK (look : String → List Nat → Unit) (cfg : Nat) : Bool :=
   (look "castprod" [cfg]).outs.length == 10 &&
   (List.range 10).all fun j => treeEqv (implied true) (castLeafOK j) [] ((look "castprod" [cfg]).out j) (.leaf (castSpec j))
 
+/-! `angle(q)` and `axis(q)` (ext/quaternion_trigonometric): for `|w| > cos(1/2)` the angle is taken from the vector part,
+    `a = 2 asin |(x,y,z)|` (and `2π − a` when `w < 0`), otherwise `2 acos w`; the axis is `(x,y,z)/sqrt(1 − w²)`, or `(0,0,1)`
+    when `1 − w² ≤ 0` -/
+def cosHalf : E := .lit 494035062339541 562949953421312          -- cos_one_over_two<double>()
+def piLit : E := .lit 884279719003555 281474976710656             -- pi<double>()
+def angA : E := .mul (.call1 .asin (.call1 .sqrt (.add (.add (sq qx) (sq qy)) (sq qz)))) two
+def qangleT : Tree :=
+  .branch (.or (.lt cosHalf qw) (.lt cosHalf (.neg qw)))
+    (.branch (.lt qw zero) (.leaf (.sub (.mul piLit two) angA)) (.leaf angA))
+    (.leaf (.mul (.call1 .acos qw) two))
+def f_qangle : Family :=
+  { name := "qangle", kind := .poly, treeMode := true, treeWalk := true, keys := cfgs, nOut := fun _ => 1,
+    spec := fun _ _ => zero, specT := fun _ _ => qangleT }
+def axisD : E := .sub one (sq qw)
+def f_qaxis : Family :=
+  { name := "qaxis", kind := .frac, treeMode := true, guard := true, keys := cfgs, nOut := fun _ => 3, spec := fun _ _ => zero,
+    allowed := fun _ => [.call1 .sqrt axisD],
+    specT := fun _ j => .branch (.le axisD zero) (.leaf (if j = 2 then one else zero))
+      (.leaf (.mul (qc 0 (j + 1)) (.div one (.call1 .sqrt axisD)))) }
+
 def families : List Family :=
   [f_qmul, f_qcross, f_qmulv3, f_qmulv4, f_vmulq3, f_mat3cast, f_mat4cast, f_mat3ofprod, f_mat3orth, f_conjugate,
    f_qinverse, f_qinverse_id, f_qdot, f_qlength, f_qnormalize, f_qadd, f_qsub, f_qneg, f_qmuls, f_qdivs,
-   f_angleAxis, f_quatEuler, f_euler1, f_euler2, f_euler3, f_yawPitchRoll, f_orientate4, f_orientate3, f_eulerAngles]
+   f_angleAxis, f_quatEuler, f_euler1, f_euler2, f_euler3, f_yawPitchRoll, f_orientate4, f_orientate3, f_eulerAngles, f_qangle, f_qaxis]
 
 end Glm.Spec.C04
